@@ -101,7 +101,22 @@ class C26(Prop):
                     reqs[2] = [["D", 0], ["U", 0]]
                 rng.shuffle(reqs)
                 reqs = reqs[:rng.choice([3, 4, 4])]
-            elif r < 0.35:    # eager wraps chain of depth 3, torn down by undeploy_all / undeploy of the middle
+            elif r < 0.31:    # stale undeploy waiter: two undeploys and several deploys of one eager deployment
+                deps = [{"wrapper": False, "wraps": None, "lazy": False, "fail": [],
+                         "dy": rng.choice([1, 1, 2]), "uy": rng.choice([0, 0, 1])}]
+                reqs = [[["D", 0]], [["U", 0]], [["U", 0], ["D", 0]], [["D", 0]]]
+                if rng.random() < 0.4:
+                    reqs[rng.randrange(4)].append(["D", 0])
+                rng.shuffle(reqs)
+            elif r < 0.37:    # concurrent deploys of the SAME wrapper over an eager inner deployment that suspends
+                deps = [{"wrapper": False, "wraps": None, "lazy": False, "fail": [], "dy": rng.choice([1, 2]),
+                         "uy": rng.choice([0, 1])},
+                        {"wrapper": True, "wraps": 0, "lazy": rng.random() < 0.2, "fail": [],
+                         "dy": rng.choice([0, 1]), "uy": rng.choice([0, 1])}]
+                reqs = [[["D", 1]] + ([["X", 1]] if rng.random() < 0.3 else []) for _ in range(rng.choice([2, 3, 3]))]
+                if rng.random() < 0.3:
+                    reqs.append([["D", 0]])
+            elif r < 0.45:    # eager wraps chain of depth 3, torn down by undeploy_all / undeploy of the middle
                 deps = [{"wrapper": i > 0, "wraps": i - 1 if i > 0 else None, "lazy": rng.random() < 0.15, "fail": [],
                          "dy": rng.choice([0, 1]), "uy": rng.choice([0, 1, 2])} for i in range(3)]
                 reqs = [[["D", 2]] + ([["U", rng.randrange(3)]] if rng.random() < 0.4 else [])]
